@@ -75,12 +75,12 @@ def replay_file(binary, path, repo, trace=False, timeout=900):
     return res
 
 
-def replay(binary, plan, scratch, repo):
+def replay(binary, plan, scratch, repo, timeout=900):
     path = _tmp(scratch)
     with open(path, 'w') as fh:
         json.dump(plan, fh)
     try:
-        return replay_file(binary, path, repo)
+        return replay_file(binary, path, repo, timeout=timeout)
     finally:
         try:
             os.unlink(path)
@@ -249,8 +249,13 @@ def minimise(binary, plan, cls, scratch, repo, budget_s=60):
     tries = [0]
 
     def fails(p):
+        # a candidate that hangs (or merely runs long) must not eat the whole budget: its replay is cut off when the budget is
+        # (a violation class 'timeout'/'budget:*' is still recognised: those come from the simulator's step clock, long before this)
+        left = t_end - time.time()
+        if left <= 0:
+            return False
         tries[0] += 1
-        return replay(binary, p, scratch, repo)['cls'] == cls
+        return replay(binary, p, scratch, repo, timeout=max(45, min(300, left + 45)))['cls'] == cls
 
     cur = copy.deepcopy(plan)
     cur.pop('expect', None)
